@@ -5,6 +5,8 @@ import (
 	"go/ast"
 	"go/token"
 	"go/types"
+	"math/big"
+	"strings"
 )
 
 func (fv *FuncVerifier) evalBuiltin(name string, call *ast.CallExpr, st *State) []Term {
@@ -165,10 +167,110 @@ func (fv *FuncVerifier) intToBV(n Term, w int) Term {
 func (fv *FuncVerifier) assignSliceContent(e ast.Expr, cur Term, narr Term, st *State) {
 	e = ast.Unparen(e)
 	if se, ok := e.(*ast.SliceExpr); ok {
-		// copy(x[a:b], src): write through to x
-		reject("copy into a slice expression at %s (not modelled)", fv.pos(se.Pos()))
+		// copy(x[a:b], src): the view's new content is written back into x at offset a
+		base := fv.eval(se.X, st)
+		if base.Sort == nil || base.Sort.Kind != KSlice {
+			reject("copy into a slice of a non-slice at %s", fv.pos(se.Pos()))
+		}
+		lo := intT(0)
+		if se.Low != nil {
+			lo = fv.toIntIndex(fv.evalTo(se.Low, types.Typ[types.Int], st), fv.typeOf(se.Low))
+		}
+		n := slLen(cur)
+		wb := fv.u.freshConst("wb", slArr(base).Sort)
+		st.assume(mk(sortBool, "(forall ((i!c Int)) (! (= (select %s i!c) (ite (and (<= %s i!c) (< i!c (+ %s %s))) (select %s (- i!c %s)) (select %s i!c))) :pattern ((select %s i!c))))",
+			wb.S, lo.S, lo.S, n.S, narr.S, lo.S, slArr(base).S, wb.S))
+		fv.assign(se.X, slMk(base.Sort, wb, slLen(base)), st)
+		return
 	}
 	fv.assign(e, slMk(cur.Sort, narr, slLen(cur)), st)
+}
+
+// byteOrderPut models order.PutUintN(b, v): the N/8 bytes of b (a slice or a view x[lo:hi])
+// become the byte image of v under that order; byteOrderGet is the inverse.
+func byteOrderPut(nbytes int) model {
+	return model{pure: false, fn: func(fv *FuncVerifier, call *ast.CallExpr, args []Term, st *State) []Term {
+		order, v := args[0], args[2]
+		fn := fv.byteFuncs(nbytes)
+		if order.Sort == nil {
+			order = Term{"0", sortInt}
+		} else if order.Sort.Kind == KStruct {
+			order = Term{"bo_le", sortInt} // the concrete binary.LittleEndian value
+		}
+		target := ast.Unparen(call.Args[0])
+		lo := intT(0)
+		var rootExpr ast.Expr = target
+		if se, ok := target.(*ast.SliceExpr); ok {
+			rootExpr = se.X
+			if se.Low != nil {
+				lo = fv.toIntIndex(fv.evalTo(se.Low, types.Typ[types.Int], st), fv.typeOf(se.Low))
+			}
+		}
+		view := args[1]
+		fv.oblige(st, "safe:idx", fmt.Sprint(fv.counter("idx")), mk(sortBool, "(>= %s %d)", slLen(view).S, nbytes), call.Pos(), fmt.Sprintf("PutUint%d needs %d bytes", nbytes*8, nbytes))
+		base := fv.eval(rootExpr, st)
+		var arr Term
+		if base.Sort.Kind == KSlice {
+			arr = slArr(base)
+		} else {
+			arr = base
+		}
+		for k := 0; k < nbytes; k++ {
+			arr = store(arr, mk(sortInt, "(+ %s %d)", lo.S, k), mk(sortInt, "(%s %s %s %d)", fn.put, order.S, v.S, k))
+		}
+		if base.Sort.Kind == KSlice {
+			fv.assign(rootExpr, slMk(base.Sort, arr, slLen(base)), st)
+		} else {
+			fv.assign(rootExpr, arr, st)
+		}
+		return nil
+	}}
+}
+
+func byteOrderGet(nbytes int) model {
+	return model{pure: true, fn: func(fv *FuncVerifier, call *ast.CallExpr, args []Term, st *State) []Term {
+		order, view := args[0], args[1]
+		fn := fv.byteFuncs(nbytes)
+		if order.Sort == nil {
+			order = Term{"0", sortInt}
+		} else if order.Sort.Kind == KStruct {
+			order = Term{"bo_le", sortInt}
+		}
+		fv.oblige(st, "safe:idx", fmt.Sprint(fv.counter("idx")), mk(sortBool, "(>= %s %d)", slLen(view).S, nbytes), call.Pos(), fmt.Sprintf("Uint%d needs %d bytes", nbytes*8, nbytes))
+		var bs []string
+		for k := 0; k < nbytes; k++ {
+			bs = append(bs, slAt(view, intT(int64(k))).S)
+		}
+		r := mk(sortInt, "(%s %s %s)", fn.get, order.S, strings.Join(bs, " "))
+		return []Term{r}
+	}}
+}
+
+type byteFn struct{ put, get string }
+
+// byteFuncs declares put/get for N bytes with the round-trip axiom, and the concrete
+// little-endian meaning for binary.LittleEndian.
+func (fv *FuncVerifier) byteFuncs(n int) byteFn {
+	if fv.u.bv {
+		reject("byte order models are defined for arith int")
+	}
+	put, get := fmt.Sprintf("bo_put%d", n*8), fmt.Sprintf("bo_get%d", n*8)
+	if !fv.u.declared["fun:"+put] {
+		var ps, gs, le []string
+		for k := 0; k < n; k++ {
+			ps = append(ps, "Int")
+			gs = append(gs, fmt.Sprintf("(%s o v %d)", put, k))
+			le = append(le, fmt.Sprintf("(= (%s bo_le v %d) (mod (div v %s) 256))", put, k, new(big.Int).Lsh(big.NewInt(1), uint(8*k)).String()))
+		}
+		lim := new(big.Int).Lsh(big.NewInt(1), uint(8*n)).String()
+		fv.u.declare("fun:"+put, fmt.Sprintf("(declare-fun %s (Int Int Int) Int)\n(declare-fun %s (Int %s) Int)\n(declare-const bo_le Int)\n"+
+			"(assert (forall ((o Int) (v Int) (k Int)) (! (and (<= 0 (%s o v k)) (<= (%s o v k) 255)) :pattern ((%s o v k)))))\n"+
+			"(assert (forall ((o Int) (v Int)) (! (=> (and (<= 0 v) (< v %s)) (= (%s o %s) v)) :pattern ((%s o v 0)))))\n"+
+			"(assert (forall ((v Int)) (! (=> (and (<= 0 v) (< v %s)) (and %s)) :pattern ((%s bo_le v 0)))))",
+			put, get, strings.Join(ps, " "), put, put, put, lim, get, strings.Join(gs, " "), put, lim, strings.Join(le, " "), put))
+		fv.u.note("encoding/binary byte orders modelled by uninterpreted put/get with the round-trip axiom; binary.LittleEndian has its concrete meaning")
+	}
+	return byteFn{put, get}
 }
 
 // concat models append(s, t...).
@@ -296,6 +398,18 @@ func init() {
 			st.assume(implies(not(found), and(eq(idx, intT(-1)), mk(sortBool, "(forall ((i!f Int)) (=> (and (<= 0 i!f) (< i!f %s)) (not %s)))", slLen(src).S, predAt(slAt(src, Term{"i!f", sortInt})).S))))
 			return []Term{elem, idx, found}
 		}},
+		"encoding/binary.ByteOrder.PutUint16":    byteOrderPut(2),
+		"encoding/binary.ByteOrder.PutUint32":    byteOrderPut(4),
+		"encoding/binary.ByteOrder.PutUint64":    byteOrderPut(8),
+		"encoding/binary.ByteOrder.Uint16":       byteOrderGet(2),
+		"encoding/binary.ByteOrder.Uint32":       byteOrderGet(4),
+		"encoding/binary.ByteOrder.Uint64":       byteOrderGet(8),
+		"encoding/binary.littleEndian.PutUint16": byteOrderPut(2),
+		"encoding/binary.littleEndian.PutUint32": byteOrderPut(4),
+		"encoding/binary.littleEndian.PutUint64": byteOrderPut(8),
+		"encoding/binary.littleEndian.Uint16":    byteOrderGet(2),
+		"encoding/binary.littleEndian.Uint32":    byteOrderGet(4),
+		"encoding/binary.littleEndian.Uint64":    byteOrderGet(8),
 		// first index of v in s, or -1
 		"github.com/samber/lo.IndexOf": {pure: false, fn: func(fv *FuncVerifier, call *ast.CallExpr, args []Term, st *State) []Term {
 			sl, v := args[0], args[1]
